@@ -68,6 +68,26 @@ DESCR = {
                'useFork with a dump file and a fork child that dies by a signal while writing'),
     'C10-m2': ('term-mismatch truncation: the membership entry sitting exactly at prevLogIdx is removed but not reverted',
                'an uncommitted membership entry at index i on a cut-off leader and a conflict found exactly at i (two leader changes)'),
+    'C11-m2': ('follower no longer answers the intermediate chunks of a chunked log entry',
+               'an entry whose chunked transfer takes longer than connectionTimeout: the leader cuts its own connection and restarts forever'),
+    'C12-m2': ('apply loop hands copy.copy(e) of the raised exception to the caller',
+               'a raising command whose exception class has a constructor that does not accept its own args'),
+    'C13-m2': ('frame parser: bare except narrowed to a list of exception types',
+               'a frame with a valid length and one valid zlib stream whose content is not a loadable pickle (KeyError, IndexError, AttributeError, ... escape the event loop)'),
+    'C14-m2': ('TcpConnection.send: idle-link excuse tests the last read time instead of the last send time (read time-out never fires)',
+               'a black-holed or half-open connection on which the node keeps sending'),
+    'C15-m2': ('ReplQueue.__init__: base-class constructor called after the data attributes are created (they are excluded from snapshots)',
+               'a snapshot of a non-empty queue is loaded (restart from dump or catch-up by snapshot)'),
+    'C16-m2': ('lock manager: base-class constructor called after the lock table is created (it is excluded from snapshots)',
+               'lock held, compaction, a node loads the snapshot, a client on that node acquires the same lock'),
+    'C17-m2': ('apply-time guard for version entries: "lower than enabled" replaced by "equal to enabled"',
+               'two overlapping version requests, the lower one ordered after the higher one in the log'),
+    'C18-m2': ('transport: read-only node counter decremented on disconnect (ids of observers repeat)',
+               'two observers on one voter, the lower-numbered leaves, another joins: a connected observer no longer follows'),
+    'C19-m2': ('FastQueue.put_nowait: overflow test after the append',
+               'more than commandsQueueSize+1 commands pending on one node: reported QUEUE_FULL and applied anyway, callback twice'),
+    'C20-m2': ('a (re)connect event refreshes the leader\'s "last heard from" time of that node',
+               'a leader cut off at the message level while connect events keep arriving (flapping link, frozen peers)'),
 }
 
 
